@@ -438,3 +438,9 @@ package redblacktree
 //@ func New
 //@   modifies nothing
 //@   ensures [C01 C02 C15 C17] fresh(result) && Inv(result) && result.size == 0
+
+//@ -- Node.String: formats the key; reads only
+//@ func Node.String
+//@   requires node != nil
+//@   modifies nothing
+//@   ensures [C17 C18] true
